@@ -371,9 +371,13 @@ impl History {
     }
 
     fn log(&mut self, s: String) {
-        if self.oplog.len() < 4000 {
-            self.oplog.push(s);
+        // (the log of a history is capped; once it is full the oldest half makes room, so that the end – where a
+        // record is raised – is always there)
+        if self.oplog.len() >= 4000 {
+            self.oplog.drain(0..2000);
+            self.oplog.insert(0, "[... earlier operations dropped from this log ...]".into());
         }
+        self.oplog.push(s);
     }
 
     fn op(&mut self, k: &'static str, code: u8) {
@@ -599,6 +603,15 @@ impl History {
         // liveness reconciliation and structural invariants from the router's own snapshot
         if let Some(snap) = self.s4.snapshot() {
             self.router_counters = serde_json::to_value(&snap.counters).unwrap_or(Value::Null);
+            if std::env::var("VERIF_DEBUG_WIN").is_ok() {
+                for c in snap.connections.iter() {
+                    let l = self.model.conns.iter().position(|m| m.state == ConnState::Live && m.client == c.client_id);
+                    if let Some(l) = l {
+                        let m = &self.model.conns[l];
+                        eprintln!("    win {}: router inflight {} head {:?} pubrels {:?} status {} | model out_fifo {} head {:?} rel_fifo {:?}", c.client_id, c.inflight.len(), c.inflight.first(), c.unacked_pubrels, c.status, m.out_fifo.len(), m.out_fifo.front().map(|e| e.pkid), m.rel_fifo);
+                    }
+                }
+            }
             let map: BTreeMap<&str, usize> = snap.connection_map.iter().map(|(k, v)| (k.as_str(), *v)).collect();
             for l in 0..self.model.conns.len() {
                 if self.model.conns[l].state != ConnState::Live {
@@ -999,10 +1012,24 @@ impl History {
     pub fn flush_acks(&mut self, a: usize, n: usize) -> usize {
         let Some(link) = self.usable(a) else { return 0 };
         let mut sent = 0;
+        let mut dbg: Vec<String> = vec![];
         while sent < n {
             let Some(p) = self.actors[a].acks.pop_front() else { break };
+            if std::env::var("VERIF_DEBUG_ACKS").is_ok() {
+                dbg.push(match &p {
+                    Packet::PubAck(x, _) => format!("A{}", x.pkid),
+                    Packet::PubRec(x, _) => format!("R{}", x.pkid),
+                    Packet::PubComp(x, _) => format!("C{}", x.pkid),
+                    Packet::PubRel(x, _) => format!("L{}", x.pkid),
+                    _ => "?".into(),
+                });
+            }
             self.s4.push(link, p);
             sent += 1;
+        }
+        if !dbg.is_empty() {
+            let fwd: Vec<&String> = dbg.iter().filter(|x| !x.starts_with('L')).collect();
+            eprintln!("    acks of {} (A=puback R=pubrec C=pubcomp; own-publish releases left out): {:?}", self.actors[a].name, fwd);
         }
         if sent > 0 {
             if self.s4.queued() > 800 {
@@ -1494,6 +1521,18 @@ impl History {
             let mut activity = false;
             for a in 0..self.actors.len() {
                 self.actors[a].stall = 0;
+                // an actor that stopped working because it expected to be closed, while neither the model nor the router
+                // sees a reason for that once everything it sent has been handled, carries on (otherwise "everybody
+                // has acknowledged" would be judged with its acknowledgements still queued)
+                if self.actors[a].poisoned && self.s4.queued() == 0 {
+                    if let Some(l) = self.actors[a].link {
+                        let c = &self.model.conns[l];
+                        if self.model.is_live(l) && c.must_close.is_none() && c.may_close.is_none() && !c.undefined && self.s4.links[l].shadow_in.is_empty() {
+                            self.actors[a].poisoned = false;
+                            self.corner("expected-close-did-not-apply");
+                        }
+                    }
+                }
                 if self.notify_pending(a) {
                     activity = true;
                 }
@@ -1530,6 +1569,14 @@ impl History {
     /// Quiescent-point oracles; liveness records get the router's own view attached so that
     /// different ways of getting stuck have different signatures
     fn judge_quiescent(&mut self) {
+        if std::env::var("VERIF_DEBUG_WIN").is_ok() {
+            for a in 0..self.actors.len() {
+                let usable = self.usable(a).is_some();
+                let acks = self.actors[a].acks.len();
+                let n = self.drain(a);
+                eprintln!("    at quiescence: actor {} usable={usable} poisoned={} acks_queued={acks} still_undrained={n}", self.actors[a].name, self.actors[a].poisoned);
+            }
+        }
         let mut recs = self.model.quiescent();
         self.corner("quiescent-point");
         if let Some(snap) = self.s4.snapshot() {
